@@ -59,6 +59,7 @@ const (
 	kStr
 	kArr
 	kObj
+	kFlt // a JSON number with a fraction (concrete text in str)
 )
 
 type aval struct {
@@ -206,6 +207,10 @@ func (b *builder) value(s *zzSchema, wrongType bool) aval {
 		}
 		return b.strTok()
 	}
+	if s.Type == "number" && b.p.next(3) == 2 { // an integer literal is a number too (concrete: floats are not symbolic here)
+		b.lit("7")
+		return aval{kind: kNum, num: 7}
+	}
 	if s.Nullable && b.p.next(3) == 2 {
 		b.lit("null")
 		return aval{kind: kNull}
@@ -213,9 +218,16 @@ func (b *builder) value(s *zzSchema, wrongType bool) aval {
 	switch s.Type {
 	case "integer":
 		return b.intTok()
+	case "number": // floats are concrete in the engine: a fixed literal with a fraction (the TYPE of the member is the subject)
+		b.lit("1.5")
+		return aval{kind: kFlt, str: []byte("1.5")}
 	case "string":
 		if s.Format == "uint64" {
 			return b.uintStrTok()
+		}
+		if s.Format == "float32" || s.Format == "float64" { // string-formatted float: a fixed canonical literal in quotes
+			b.lit(`"2.5"`)
+			return aval{kind: kStr, str: []byte("2.5")}
 		}
 		if len(s.Enum) > 0 && b.p.next(2) == 0 {
 			e := s.Enum[b.p.next(len(s.Enum))]
@@ -339,6 +351,8 @@ func avalEq(x, y aval) bool {
 	switch x.kind {
 	case kNum:
 		return x.num == y.num
+	case kFlt:
+		return zz.EqBytes(x.str, y.str)
 	case kStr:
 		return zz.EqBytes(x.str, y.str)
 	case kBool:
@@ -364,6 +378,8 @@ func refValid(s *zzSchema, v aval) bool {
 		return s.Nullable
 	}
 	switch s.Type {
+	case "number":
+		return v.kind == kFlt || v.kind == kNum
 	case "integer":
 		if v.kind != kNum {
 			return false
@@ -399,6 +415,9 @@ func refValid(s *zzSchema, v aval) bool {
 			return false
 		}
 		ok := true
+		if s.Format == "float32" || s.Format == "float64" {
+			return zz.EqBytes(v.str, []byte("2.5")) // the only float text the builder writes; anything else came from a mutation
+		}
 		if s.Format == "uint64" { // canonical decimal (the builder only writes digits; no leading zero unless "0")
 			if len(v.str) == 0 {
 				return false
